@@ -92,7 +92,7 @@ Print Assumptions C03_wire.
 Theorem C03_roundtrip : forall m, wf_msg frame_cap m ->
   decode_message frame_cap (to_bytes m) = Ok (forget_reply m) /\
   to_bytes (forget_reply m) = to_bytes m.
-Proof. intros m. apply decode_to_bytes. pose proof bridge_cap. lia. Qed.
+Proof. exact roundtrip_at_cap. Qed.
 Print Assumptions C03_roundtrip.
 
 (** and the other way round: an accepted data frame re-serialises to itself *)
@@ -109,15 +109,7 @@ Theorem C03_roundtrip_unbounded_refuted : exists stream fn w sid sb it m,
   new_data_message stream fn w sid sb it = Ok m /\
   len (d_body m) <= Gen.secs2.MaxByteSize + 4 /\
   decode_message frame_cap (to_bytes (MData m)) = Err ELenBig.
-Proof.
-  exists 1, 1, false, 0, (0, 0, 0, 1), (ItemOk (repeat 0 (Z.to_nat (frame_cap - 9)))).
-  eexists. split; [reflexivity|].
-  assert (L : len (repeat 0 (Z.to_nat (frame_cap - 9))) = frame_cap - 9).
-  { unfold len. rewrite repeat_length. pose proof bridge_cap. lia. }
-  split.
-  - cbn [d_body item_body]. rewrite L. pose proof bridge_cap as (E & _). unfold frame_cap. rewrite E. lia.
-  - apply decode_to_bytes_oversize; cbn [d_body item_body]; rewrite ?L; pose proof bridge_cap; lia.
-Qed.
+Proof. exact roundtrip_unbounded_refuted. Qed.
 Print Assumptions C03_roundtrip_unbounded_refuted.
 
 (** *** Construction rejects exactly the invalid combinations *)
